@@ -143,7 +143,7 @@ TopAtts(ents, t) ==
 
 \* the records a set of local-span entries is entitled to when attached under span h with lineage lin
 SetRecords(ents, h, lin, t, by) ==
-  {[n |-> ents[j].n, r |-> lin[i].r, tr |-> lin[i].tr,
+  {[n |-> ents[j].n, r |-> lin[i].r, tr |-> lin[i].tr, ci |-> i,
     par |-> IF ents[j].par = None THEN h ELSE ents[j].par,
     must |-> OwnAtts(ents, ents[j], t), own |-> TRUE, by |-> by, due |-> FALSE] :
      i \in {x \in DOMAIN lin : lin[x].smp}, j \in {y \in DOMAIN ents : ents[y].k = "span"}}
@@ -156,7 +156,7 @@ SpanRecords(a, h, by) ==
   LET s == a.sp[h]
       own == [i \in DOMAIN s.cprops |-> PAtt(s.cprops[i], "creation", by)]
       atts == Get(a.att, h, <<>>) IN
-  {[n |-> h, r |-> s.lin[i].r, tr |-> s.lin[i].tr, par |-> s.lin[i].par,
+  {[n |-> h, r |-> s.lin[i].r, tr |-> s.lin[i].tr, ci |-> i, par |-> s.lin[i].par,
     must |-> IF RootOpen(a, s.lin[i].r) \/ s.lin[i].r = h THEN own \o atts ELSE own,
     own |-> FALSE, by |-> by, due |-> FALSE] : i \in {x \in DOMAIN s.lin : s.lin[x].smp}}
 
@@ -218,6 +218,18 @@ RetRoot(a, e) ==
                            !.qs = IF refused /\ ~a.cfg.cancelable THEN @ \cup {e.h} ELSE @]
             ELSE a IN
   Hint(a1, e.h, F(e, "id"))
+
+\* a root made from an extracted context: the context must be the one the source denotes (C11),
+\* the root then continues that trace under that span
+CallRootCtx(a, e) ==
+  IF e.ctx.some /\ Recording(a)
+  THEN [NewSpan(a, e.h, <<[r |-> e.h, tr |-> e.ctx.tr, par |-> None, smp |-> e.ctx.smp]>>, FALSE)
+          EXCEPT !.rt = Put(@, e.h, [tr |-> e.ctx.tr, rpar |-> e.ctx.id, smp |-> e.ctx.smp, st |-> "open", cid |-> None,
+                                     opt |-> FALSE, mem |-> {}, done |-> FALSE])]
+  ELSE NewSpan(a, e.h, <<>>, TRUE)
+RetRootCtx(a, e) ==
+  LET want == IF F(e, "src") = None THEN LocalCtx(a, e.t) ELSE SpanCtx(a, e.src) IN
+  RetRoot(CallRootCtx(CheckCtx(a, "C11", want, e.ctx), e), e)
 
 CallChild(a, e) ==
   LET lin == ChildLin(a, e.ps)
@@ -336,7 +348,7 @@ CallDrop(a, e) ==
        IF Has(a.rt, e.h) /\ a.rt[e.h].st = "open"
        THEN \* root finish: in cancelable mode everything of the trace that is due now must come with it
             [a2 EXCEPT !.rt[e.h].st = "fin",
-                       !.rt[e.h].mem = {[n |-> x.n, par |-> x.par] : x \in {y \in a1.exp : y.r = e.h /\ (y.due \/ y.n = e.h)}}]
+                       !.rt[e.h].mem = {[n |-> x.n, par |-> x.par, ci |-> x.ci] : x \in {y \in a1.exp : y.r = e.h /\ (y.due \/ y.n = e.h)}}]
        ELSE a2
 
 CallCancel(a, e) ==
@@ -433,7 +445,7 @@ TakeRecord(a, rec) ==
   ELSE LET fit == {e \in C : ParentFits(a, e, rec)}
            open == {e \in C : ParentOpen(a, e)}
            e == IF fit # {} THEN CHOOSE x \in fit : TRUE ELSE IF open # {} THEN CHOOSE x \in open : TRUE ELSE CHOOSE x \in C : TRUE
-           a1 == [a EXCEPT !.exp = @ \ {e}, !.opt = @ \ {e}, !.dl = @ \cup {[n |-> e.n, tr |-> e.tr, r |-> e.r, par |-> e.par]}]
+           a1 == [a EXCEPT !.exp = @ \ {e}, !.opt = @ \ {e}, !.dl = @ \cup {[n |-> e.n, tr |-> e.tr, r |-> e.r, par |-> e.par, ci |-> e.ci]}]
            a2 == IF rec.id = Zero THEN Viol(a1, "C02", "zero-id", rec) ELSE Claim(a1, "C02", rec.name, rec.id)
            a3 == IF e.par = None
                  THEN IF a.rt[e.r].rpar # rec.parent THEN Viol(a2, "C02", "remote-parent", rec) ELSE a2
@@ -441,11 +453,14 @@ TakeRecord(a, rec) ==
                  ELSE Claim(a2, "C02", e.par, rec.parent)
            cb == ContentBad(a, e, rec)
            cid == a.rt[e.r].cid
+           \* the same span has another copy in the same trace (several parents that share a trace)
+           twin == \E x \in a.exp \cup a.opt \cup a.dl : x.n = e.n /\ x.r = e.r /\ x.ci # e.ci
            \* an attachment can only be missing legitimately when the trace's start was refused (C09)
            a4 == IF cb = "ok" THEN a3
                  ELSE IF cb = "missing-attachment" /\ e.r \in a.qs THEN Viol(a3, "C09", "attachment-lost-after-refused-start", rec)
                  ELSE ViolK(a3, "C06", cb, [rec |-> rec, must |-> e.must],
-                            IF cb = "missing-attachment" /\ cid \in a.cut THEN "cut" ELSE None) IN
+                            IF cb = "missing-attachment" /\ cid \in a.cut THEN "cut"
+                            ELSE IF cb \in {"missing-attachment", "duplicate-attachment"} /\ twin THEN "twin" ELSE None) IN
        [a4 EXCEPT !.got = Append(@, e)]
 
 RECURSIVE TakeAll(_, _, _)
@@ -459,7 +474,7 @@ BatchRules(a0, a, got) ==
         IF a0.rt[r].done THEN "after-root-batch"
         ELSE IF a0.rt[r].st = "open" THEN "before-root-finished"
         ELSE IF ~\E e \in Rng(got) : e.r = r /\ e.n = r THEN "without-root-record"
-        ELSE IF \E m \in a0.rt[r].mem : ~\E e \in Rng(got) : e.r = r /\ e.n = m.n /\ e.par = m.par THEN "incomplete"
+        ELSE IF \E m \in a0.rt[r].mem : ~\E e \in Rng(got) : e.r = r /\ e.n = m.n /\ e.par = m.par /\ e.ci = m.ci THEN "incomplete"
         ELSE "ok"
       RECURSIVE go(_, _)
       go(st, rs) == IF rs = {} THEN st
@@ -468,7 +483,7 @@ BatchRules(a0, a, got) ==
                              k == IF b = "incomplete" /\ a0.rt[r].cid \in a0.cut THEN "cut" ELSE None
                              st1 == IF b = "ok" THEN st ELSE ViolK(st, "C03", b, [root |-> r], k)
                          IN go([st1 EXCEPT !.rt[r].done = TRUE, !.exp = {x \in @ : x.r # r}, !.opt = {x \in @ : x.r # r},
-                                           !.dl = @ \cup {[n |-> x.n, tr |-> x.tr, r |-> x.r, par |-> x.par] : x \in {y \in st1.opt : y.r = r}}],
+                                           !.dl = @ \cup {[n |-> x.n, tr |-> x.tr, r |-> x.r, par |-> x.par, ci |-> x.ci] : x \in {y \in st1.opt : y.r = r}}],
                                rs \ {r}) IN
   IF a.cfg.cancelable THEN go(a, roots) ELSE a
 
@@ -547,7 +562,9 @@ Call(a, e) ==
 
 Ret(a, e) ==
   LET a0 == Parked(RetAny(a, e), e)
-      a1 == CASE e.op = "root"   -> RetRoot(a0, e)
+      a1 == CASE Has(e, "panic") -> a0      \* no results to look at
+              [] e.op = "root"   -> RetRoot(a0, e)
+              [] e.op = "rootctx" -> RetRootCtx(a0, e)
               [] e.op \in {"child", "childl"} -> RetSpanId(a0, e)
               [] e.op = "lenter" -> RetLEnter(a0, e)
               [] e.op = "lprops" -> CallLProps(RetClosure(a0, e), e)
